@@ -272,10 +272,230 @@ func c06Term(e ast.Expr) (string, bool) {
 	return "", false
 }
 
+// ---------------------------------------------------------------- BuildBatcherFromArguments as a function
+
+// c06BB translates the body of BuildBatcherFromArguments into a Lean function over the flag look-ups
+// (B : String → Bool for c.Bool, I : String → Int for c.Int), the number of positional arguments and whether the
+// first one is "-".  Supported: the `var ( name = expr … )` block, `fileglobs := c.Args().Slice()`, ifs whose body is
+// one logger.Fatal* call, ifs whose body is one logger.Println warning, if / else-if / else with returns.
+type c06BB struct {
+	c     *Ctx
+	bools map[string]bool
+	ints  map[string]bool
+	ok    bool
+}
+
+func (t *c06BB) flagCall(e ast.Expr) (kind, name string, ok bool) {
+	call, isCall := e.(*ast.CallExpr)
+	if !isCall || len(call.Args) != 1 {
+		return "", "", false
+	}
+	sel, isSel := call.Fun.(*ast.SelectorExpr)
+	if !isSel {
+		return "", "", false
+	}
+	if x, isId := sel.X.(*ast.Ident); !isId || x.Name != "c" {
+		return "", "", false
+	}
+	lit, isLit := StringLit(call.Args[0])
+	if !isLit || (sel.Sel.Name != "Bool" && sel.Sel.Name != "Int") {
+		return "", "", false
+	}
+	return sel.Sel.Name, lit, true
+}
+
+func (t *c06BB) boolExpr(e ast.Expr) string {
+	switch v := e.(type) {
+	case *ast.ParenExpr:
+		return "(" + t.boolExpr(v.X) + ")"
+	case *ast.Ident:
+		if t.bools[v.Name] {
+			return v.Name
+		}
+	case *ast.UnaryExpr:
+		if v.Op == token.NOT {
+			return "(!" + t.boolExpr(v.X) + ")"
+		}
+	case *ast.CallExpr:
+		if kind, name, ok := t.flagCall(v); ok && kind == "Bool" {
+			return "B " + leanStr(name)
+		}
+	case *ast.BinaryExpr:
+		switch v.Op {
+		case token.LAND:
+			return "(" + t.boolExpr(v.X) + " && " + t.boolExpr(v.Y) + ")"
+		case token.LOR:
+			return "(" + t.boolExpr(v.X) + " || " + t.boolExpr(v.Y) + ")"
+		case token.LSS, token.GTR, token.LEQ, token.GEQ, token.EQL, token.NEQ:
+			txt := strings.Join(strings.Fields(t.c.Print(v)), "")
+			if txt == "len(fileglobs)==0" {
+				return "decide (nargs = 0)"
+			}
+			if txt == "fileglobs[0]==\"-\"" {
+				return "firstIsDash"
+			}
+			a, b := t.intExpr(v.X), t.intExpr(v.Y)
+			op := map[token.Token]string{token.GTR: ">", token.LSS: "<", token.GEQ: "≥", token.LEQ: "≤", token.EQL: "=", token.NEQ: "≠"}[v.Op]
+			return "decide (" + a + " " + op + " " + b + ")"
+		}
+	}
+	t.ok = false
+	return "false"
+}
+
+func (t *c06BB) intExpr(e ast.Expr) string {
+	if n, ok := IntLit(e); ok {
+		if n < 0 {
+			return fmt.Sprintf("(%d)", n)
+		}
+		return fmt.Sprint(n)
+	}
+	if id, ok := e.(*ast.Ident); ok && t.ints[id.Name] {
+		return id.Name
+	}
+	if kind, name, ok := t.flagCall(e); ok && kind == "Int" {
+		return "I " + leanStr(name)
+	}
+	t.ok = false
+	return "0"
+}
+
+// loggerCall: logger.<fn>(args…)
+func (t *c06BB) loggerCall(st ast.Stmt) (fn string, args []ast.Expr, ok bool) {
+	es, isE := st.(*ast.ExprStmt)
+	if !isE {
+		return "", nil, false
+	}
+	call, isCall := es.X.(*ast.CallExpr)
+	if !isCall {
+		return "", nil, false
+	}
+	sel, isSel := call.Fun.(*ast.SelectorExpr)
+	if !isSel {
+		return "", nil, false
+	}
+	if x, isId := sel.X.(*ast.Ident); !isId || x.Name != "logger" {
+		return "", nil, false
+	}
+	return sel.Sel.Name, call.Args, true
+}
+
+func (t *c06BB) arg(e ast.Expr) string {
+	if id, ok := e.(*ast.Ident); ok {
+		if t.bools[id.Name] {
+			return ".b " + id.Name
+		}
+		if t.ints[id.Name] {
+			return ".i " + id.Name
+		}
+	}
+	if call, ok := e.(*ast.CallExpr); ok && strings.Join(strings.Fields(t.c.Print(call.Fun)), "") == "dirwalk.GlobExpand" && len(call.Args) == 2 {
+		if id, ok := call.Args[0].(*ast.Ident); ok && id.Name == "fileglobs" {
+			if r, ok := call.Args[1].(*ast.Ident); ok && t.bools[r.Name] {
+				return ".glob " + r.Name
+			}
+		}
+	}
+	return ".text " + leanStr(strings.Join(strings.Fields(t.c.Print(e)), ""))
+}
+
+// block translates a statement list; w = name of the current warnings list.
+func (t *c06BB) block(l []ast.Stmt, w int, ind string) string {
+	if len(l) == 0 {
+		t.ok = false
+		return ind + ".untranslatable"
+	}
+	switch v := l[0].(type) {
+	case *ast.AssignStmt:
+		if strings.Join(strings.Fields(t.c.Print(v)), "") == "fileglobs:=c.Args().Slice()" {
+			return t.block(l[1:], w, ind)
+		}
+	case *ast.ReturnStmt:
+		if len(v.Results) == 1 {
+			if call, ok := v.Results[0].(*ast.CallExpr); ok {
+				var args []string
+				for _, a := range call.Args {
+					args = append(args, t.arg(a))
+				}
+				return fmt.Sprintf("%s.ret %s [%s] w%d", ind, leanStr(strings.Join(strings.Fields(t.c.Print(call.Fun)), "")), strings.Join(args, ", "), w)
+			}
+		}
+	case *ast.IfStmt:
+		if v.Init == nil && len(v.Body.List) == 1 {
+			if fn, args, ok := t.loggerCall(v.Body.List[0]); ok && v.Else == nil {
+				if strings.HasPrefix(fn, "Fatal") && len(args) >= 2 {
+					if msg, ok := StringLit(args[1]); ok {
+						code := strings.Join(strings.Fields(t.c.Print(args[0])), "")
+						return fmt.Sprintf("%sif %s then .fatal %s %s else\n%s", ind, t.boolExpr(v.Cond), leanStr(code), leanStr(msg), t.block(l[1:], w, ind))
+					}
+				}
+				if strings.HasPrefix(fn, "Print") && len(args) == 1 {
+					if msg, ok := StringLit(args[0]); ok {
+						return fmt.Sprintf("%slet w%d := w%d ++ (if %s then [%s] else [])\n%s", ind, w+1, w, t.boolExpr(v.Cond), leanStr(msg), t.block(l[1:], w+1, ind))
+					}
+				}
+			}
+		}
+		if v.Init == nil && v.Else != nil && len(l) == 1 {
+			var els string
+			switch e := v.Else.(type) {
+			case *ast.BlockStmt:
+				els = t.block(e.List, w, ind+"  ")
+			case *ast.IfStmt:
+				els = t.block([]ast.Stmt{e}, w, ind+"  ")
+			}
+			return fmt.Sprintf("%sif %s then\n%s\n%selse\n%s", ind, t.boolExpr(v.Cond), t.block(v.Body.List, w, ind+"  "), ind, els)
+		}
+	}
+	t.ok = false
+	return ind + ".untranslatable"
+}
+
+func (c *Ctx) c06BuildBatcherFn(fd *ast.FuncDecl) (string, bool) {
+	t := &c06BB{c: c, bools: map[string]bool{}, ints: map[string]bool{}, ok: true}
+	var sb strings.Builder
+	sb.WriteString("def buildBatcherFn (B : String → Bool) (I : String → Int) (nargs : Nat) (firstIsDash : Bool) : Decision :=\n")
+	rest := fd.Body.List
+	for len(rest) > 0 {
+		if ds, ok := rest[0].(*ast.DeclStmt); ok {
+			gd, ok := ds.Decl.(*ast.GenDecl)
+			if !ok || gd.Tok != token.VAR {
+				return "", false
+			}
+			for _, sp := range gd.Specs {
+				vs, ok := sp.(*ast.ValueSpec)
+				if !ok || len(vs.Names) != 1 || len(vs.Values) != 1 {
+					return "", false
+				}
+				name := vs.Names[0].Name
+				// an integer flag, or a boolean expression over flags and earlier variables
+				if kind, _, ok := t.flagCall(vs.Values[0]); ok && kind == "Int" {
+					fmt.Fprintf(&sb, "  let %s : Int := %s\n", name, t.intExpr(vs.Values[0]))
+					t.ints[name] = true
+				} else {
+					fmt.Fprintf(&sb, "  let %s : Bool := %s\n", name, t.boolExpr(vs.Values[0]))
+					t.bools[name] = true
+				}
+			}
+			rest = rest[1:]
+			continue
+		}
+		if as, ok := rest[0].(*ast.AssignStmt); ok && strings.Join(strings.Fields(c.Print(as)), "") == "fileglobs:=c.Args().Slice()" {
+			rest = rest[1:]
+			continue
+		}
+		break
+	}
+	sb.WriteString("  let w0 : List String := []\n")
+	sb.WriteString(t.block(rest, 0, "  "))
+	sb.WriteString("\n\n")
+	return sb.String(), t.ok
+}
+
 func init() {
 	RegisterGen("C06", func(c *Ctx) string {
 		var sb strings.Builder
-		sb.WriteString("import Rare.Model.C06Ctl\nnamespace Rare.Gen.C06\nopen Rare.C06 (Ctl)\n\n")
+		sb.WriteString("import Rare.Model.C06Ctl\nnamespace Rare.Gen.C06\nopen Rare.C06 (Ctl Arg Decision)\n\n")
 		const exitFile = "cmd/helpers/exitCodes.go"
 		consts := map[string]int64{}
 		for _, name := range []string{"ExitCodeNoData", "ExitCodeInvalidUsage"} {
@@ -386,6 +606,12 @@ func init() {
 				}
 			}
 			fmt.Fprintf(&sb, "/-- the if-statements of `BuildBatcherFromArguments` (cmd/helpers/extractorBuilder.go) -/\ndef buildBatcher : List String := %s\n\n", leanStrList(c.c06Ctl(ifs)))
+			if txt, ok := c.c06BuildBatcherFn(f); ok {
+				sb.WriteString("/-- the body of `BuildBatcherFromArguments` as a function: flag look-ups `B` (`c.Bool`), `I` (`c.Int`), number of positional arguments, first argument is `-` -/\n")
+				sb.WriteString(txt)
+			} else {
+				sb.WriteString(untranslatable("buildBatcherFn"))
+			}
 		} else {
 			sb.WriteString(untranslatable("buildBatcher"))
 		}
